@@ -38,7 +38,8 @@ def Progress (s : St) (t p k : Nat) : Prop :=
 (Stated without existential quantifiers wherever possible: friendlier to `grind`.) -/
 structure Inv (c : Cfg) (s : St) (cur : Option Nat) : Prop where
   tasks_lt : ∀ t x, s.tasks t = some x → t < s.nTasks
-  futs_fresh : ∀ t k, s.nTasks ≤ t → s.futs (t, k) ≠ .cancelled ∧ ∀ w, s.futs (t, k) = .pending w → w = none
+  futs_fresh : ∀ t k, s.nTasks ≤ t → s.futs (t, k) ≠ .cancelled
+  futs_fresh' : ∀ t k w, s.nTasks ≤ t → s.futs (t, k) = .pending w → w = none
   running : ∀ t x, s.tasks t = some x → (x.pc = .running ↔ cur = some t)
   /-- a task that can still write belongs to the most recent assignment of its parameter -/
   live_last : ∀ t x, s.tasks t = some x → Live c s t x → s.last x.param = .task t
@@ -64,12 +65,12 @@ structure Inv (c : Cfg) (s : St) (cur : Option Nat) : Prop where
   one_coro : c.awaitInside = true → ∀ t t' x x', s.tasks t = some x → s.tasks t' = some x' →
           x.kind = .coro → x'.kind = .coro → x.pc.terminal = false → x'.pc.terminal = false → t = t'
   out_patch : ∀ t x, s.tasks t = some x → x.pc = .awaitOut → c.awaitInside = false
-  kind_coro : ∀ t x, s.tasks t = some x → (∀ sv, x.pc ≠ .awaitCoro sv) ∨ x.kind = .coro
+  kind_coro : ∀ t x sv, s.tasks t = some x → x.pc = .awaitCoro sv → x.kind = .coro
   kind_coro' : ∀ t x, s.tasks t = some x → x.pc = .awaitOut → x.kind = .coro
   kind_gen : ∀ t x k, s.tasks t = some x → x.pc = .awaitGen k → x.kind ≠ .coro ∧ ∀ n, x.kind = .agen n → k < n
   /-- a cancelled future belongs to a task that waits on it (its wake-up is queued) or has ended -/
-  fut_cancelled : ∀ t k x, s.futs (t, k) = .cancelled → s.tasks t = some x →
-          x.pc.terminal = true ∨ waitingOn t x.pc = some (t, k)
+  fut_cancelled : ∀ t k x, s.futs (t, k) = .cancelled → s.tasks t = some x → x.pc.terminal = false →
+          waitingOn t x.pc = some (t, k)
   val_plain : ∀ p v, s.last p = .plain v → s.vals p = v
   val_coro : ∀ p t x, s.last p = .task t → s.tasks t = some x → x.kind = .coro → x.pc = .finished →
           s.futs (t, 0) = .done (s.vals p)
@@ -90,11 +91,12 @@ theorem upd_apply {κ α : Type} [DecidableEq κ] (m : κ → α) (k i : κ) (v 
     upd m k v i = if i = k then v else m i := rfl
 
 
+set_option maxHeartbeats 4000000 in
 theorem inv_complete (c : Cfg) (s : St) (f : Fid) (v : Int) (h : Inv c s none) : Inv c (complete s f v) none := by
   unfold complete
   split
   next w hw =>
-    obtain ⟨h1, h2, h3, h4, h5, h6, h7, h8, h9, h10, h11, h12, h13, h14, h15, h16, h17, h18, h19, h20, h21, h22, h23, h24, h25⟩ := h
+    obtain ⟨h1, h2, h3, h4, h5, h6, h7, h8, h9, h10, h11, h12, h13, h14, h15, h16, h17, h18, h19, h20, h21, h22, h23, h24, h25, h26⟩ := h
     cases w with
     | none =>
       constructor
@@ -112,24 +114,11 @@ theorem inv_assignPlain (c : Cfg) (s : St) (p : Nat) (v : Int) (h : Inv c s none
     (hA : c.awaitInside = true → p ∉ s.syncing)
     (hD : c.startCheck = false → ∀ t x, s.tasks t = some x → x.param = p → x.pc ≠ .start) :
     Inv c (assignPlain s p v) none := by
-  obtain ⟨h1, h2, h3, h4, h5, h6, h7, h8, h9, h10, h11, h12, h13, h14, h15, h16, h17, h18, h19, h20, h21, h22, h23, h24, h25⟩ := h
+  obtain ⟨h1, h2, h3, h4, h5, h6, h7, h8, h9, h10, h11, h12, h13, h14, h15, h16, h17, h18, h19, h20, h21, h22, h23, h24, h25, h26⟩ := h
   simp only [assignPlain, plainSet, popCancel, cancelTask]
   repeat' split
   all_goals (constructor <;> simp only [St.setTask])
   all_goals grind (splits := 16) [upd, Live, Doomed, waitsCancelled, Fut.isPending, Progress, waitingOn, Pc.terminal]
 
-
-set_option maxHeartbeats 4000000 in
-theorem inv_assignAsync (c : Cfg) (s : St) (p : Nat) (k : Kind) (h : Inv c s none)
-    (hB : c.awaitInside = true → k = .coro → ∀ t x, s.tasks t = some x → x.kind = .coro → x.pc.terminal = true)
-    (hD : c.startCheck = false → ∀ t x, s.tasks t = some x → x.param = p → x.pc ≠ .start) :
-    Inv c (assignAsync c s p k) none := by
-  obtain ⟨h1, h2, h3, h4, h5, h6, h7, h8, h9, h10, h11, h12, h13, h14, h15, h16, h17, h18, h19, h20, h21, h22, h23, h24, h25⟩ := h
-  simp only [assignAsync, spawn, updateRef, popCancel, cancelTask]
-  repeat' split
-  all_goals (constructor <;> simp only [St.setTask])
-  all_goals (try grind (splits := 16) [upd, Live, Doomed, waitsCancelled, Fut.isPending, Progress, waitingOn, Pc.terminal])
-  all_goals trace_state
-  all_goals sorry
 
 end ParamVerif.Async
